@@ -645,3 +645,23 @@ Proof.
   destruct H as [H1 H2]. split; [exact H1|].
   unfold owned_now in H2 at 1. rewrite lookup_get, reg_get_new in H2. exact H2.
 Qed.
+
+Lemma caller_claim_events self mixed r s c m sid :
+  let k := make_tuple_key s c m in
+  snd (caller_claim self mixed r s c m sid) =
+    (if mixed then
+       match lookup r k with
+       | Some prev => if bytes_eqb (o_proto prev) self then [] else [(o_sid prev, k)]
+       | None => []
+       end
+     else []) /\
+  fst (caller_claim self mixed r s c m sid) =
+    (if mixed then fst (reg_step r (OClaim k (mkOwner self sid k))) else r).
+Proof.
+  intros k. unfold caller_claim. fold k. destruct mixed; [|split; reflexivity].
+  pose proof (component_claim_events self r k sid) as E.
+  pose proof (component_claim_state self r k sid) as S.
+  destruct (component_claim self r k sid) as [r' ev]. cbn [fst snd] in *. subst. split; [|reflexivity].
+  destruct (lookup r k) as [prev|]; [|reflexivity].
+  destruct (bytes_eqb (o_proto prev) self); reflexivity.
+Qed.
